@@ -18,7 +18,13 @@ def mk_obj(o):
         elif c == 2: dt = 2.0
         elif c == 3: fchans = 5
         elif c == 4: fch1 = 1016.0
+        elif c == 6:
+            # a descending frame whose fch1 equals the reference's fch1: same fch1, but another minimum frequency
+            return stg.Frame(fchans=fchans, tchans=2 + (o["id"] % 3), df=df, dt=dt, fch1=fch1, ascending=False, t_start=100.0 * o["id"])
         elif c >= 5: df = 2.0 + c
+        if o.get("desc"):
+            # the same band described with the other orientation flag: fch1 is then the maximum frequency; same class
+            return stg.Frame(fchans=fchans, tchans=2 + (o["id"] % 3), df=df, dt=dt, fch1=fch1 + (fchans - 1) * df, ascending=False, t_start=100.0 * o["id"])
         fr = stg.Frame(fchans=fchans, tchans=2 + (o["id"] % 3), df=df, dt=dt, fch1=fch1, ascending=True, t_start=100.0 * o["id"])
         return fr
     k = o["id"] % 4
